@@ -12,14 +12,8 @@ def Fld.ofField (K : Type) [Field K] [DecidableEq K] : Fld K :=
     ofNat := fun n => (n : K), beq := fun a b => decide (a = b) }
 
 variable {K : Type} [Field K] [DecidableEq K]
+set_option linter.unusedSectionVars false
 
-@[simp] theorem ofField_add (a b : K) : (Fld.ofField K).add a b = a + b := rfl
-@[simp] theorem ofField_sub (a b : K) : (Fld.ofField K).sub a b = a - b := rfl
-@[simp] theorem ofField_mul (a b : K) : (Fld.ofField K).mul a b = a * b := rfl
-@[simp] theorem ofField_neg (a : K) : (Fld.ofField K).neg a = -a := rfl
-@[simp] theorem ofField_inv (a : K) : (Fld.ofField K).inv a = a⁻¹ := rfl
-@[simp] theorem ofField_ofNat (n : Nat) : (Fld.ofField K).ofNat n = (n : K) := rfl
-@[simp] theorem ofField_beq (a b : K) : (Fld.ofField K).beq a b = decide (a = b) := rfl
 @[simp] theorem ofField_add (a b : K) : (Fld.ofField K).add a b = a + b := rfl
 @[simp] theorem ofField_sub (a b : K) : (Fld.ofField K).sub a b = a - b := rfl
 @[simp] theorem ofField_mul (a b : K) : (Fld.ofField K).mul a b = a * b := rfl
@@ -96,6 +90,8 @@ theorem eaAdd_id_left (a d : K) (P : K × K) : eaAdd? (Fld.ofField K) a d (0, 1)
 /-- curve equation a x² + y² = 1 + d x² y² -/
 def EdOn (a d : K) (P : K × K) : Prop := a * P.1 ^ 2 + P.2 ^ 2 = 1 + d * P.1 ^ 2 * P.2 ^ 2
 
+instance (a d : K) (P : K × K) : Decidable (EdOn a d P) := by unfold EdOn; infer_instance
+
 /-- the on-curve check of the constructor is the curve equation (when it does not raise) -/
 theorem edOnCurve_iff (a d : K) (P : K × K) (h : 1 - d * (P.1 * P.1) ≠ 0) :
     edOnCurve? (Fld.ofField K) a d P = some (decide (EdOn a d P)) := by
@@ -133,11 +129,438 @@ theorem edAddSpec_closed (a d : K) (P Q : K × K) (hP : EdOn a d P) (hQ : EdOn a
     intro e; apply h; linear_combination (1 - d * x1 * x2 * y1 * y2) * e
   have hm : 1 - d * x1 * x2 * y1 * y2 ≠ 0 := by
     intro e; apply h; linear_combination (1 + d * x1 * x2 * y1 * y2) * e
-  simp only [edAddSpec]
-  rw [div_pow, div_pow]
-  field_simp
+  simp only [edAddSpec, div_eq_mul_inv]
+  have hu := mul_inv_cancel₀ hp
+  have hv := mul_inv_cancel₀ hm
+  generalize (1 + d * x1 * x2 * y1 * y2)⁻¹ = u at hu
+  generalize (1 - d * x1 * x2 * y1 * y2)⁻¹ = v at hv
   linear_combination
-    (-a^2*d*x1^2*x2^4*y2^2 - 2*a^2*x2^4*y2^2 + a^2*x2^4 + a*d^2*x1^2*x2^4*y2^4 - a*d*x1^2*x2^2*y2^4 - a*d*x2^4*y1^2*y2^2 + 2*a*d*x2^4*y2^4 - 2*a*x2^2*y2^4 + 4*a*x2^2*y2^2 + d^3*x1^2*x2^4*y1^2*y2^4 + d^2*x2^4*y1^2*y2^4 - d^2*x2^4*y2^4 - d*x2^2*y1^2*y2^4 - 2*d*x2^2*y2^2 + y2^4) * hP
-    + (a^2*d*x1^4*x2^2*y2^2 + 2*a^2*x1^2*x2^2*y2^2 - a^2*x1^2*x2^2 - 2*a*d*x1^2*x2^2*y2^2 - a*x1^2*y2^2 + 2*a*x2^2*y1^2*y2^2 - a*x2^2*y1^2 - 2*a*x2^2*y2^2 + a*x2^2 + d*x2^2*y1^4*y2^2 - 2*d*x2^2*y1^2*y2^2 + d*x2^2*y2^2 - y1^2*y2^2 + y2^2 + 1) * hQ
+    u^2*v^2*(-a^2*d*x1^2*x2^4*y2^2 - 2*a^2*x2^4*y2^2 + a^2*x2^4 + a*d^2*x1^2*x2^4*y2^4 - a*d*x1^2*x2^2*y2^4 - a*d*x2^4*y1^2*y2^2 + 2*a*d*x2^4*y2^4 - 2*a*x2^2*y2^4 + 4*a*x2^2*y2^2 + d^3*x1^2*x2^4*y1^2*y2^4 + d^2*x2^4*y1^2*y2^4 - d^2*x2^4*y2^4 - d*x2^2*y1^2*y2^4 - 2*d*x2^2*y2^2 + y2^4) * hP
+    + u^2*v^2*(a^2*d*x1^4*x2^2*y2^2 + 2*a^2*x1^2*x2^2*y2^2 - a^2*x1^2*x2^2 - 2*a*d*x1^2*x2^2*y2^2 - a*x1^2*y2^2 + 2*a*x2^2*y1^2*y2^2 - a*x2^2*y1^2 - 2*a*x2^2*y2^2 + a*x2^2 + d*x2^2*y1^4*y2^2 - 2*d*x2^2*y1^2*y2^2 + d*x2^2*y2^2 - y1^2*y2^2 + y2^2 + 1) * hQ
+    + (-(y1 * y2 - a * x1 * x2)^2 * v^2 + 1) * ((1 + d * x1 * x2 * y1 * y2) * u + 1) * hu
+    + (-a * (x1 * y2 + x2 * y1)^2 * u^2 + ((1 + d * x1 * x2 * y1 * y2) * u)^2) * ((1 - d * x1 * x2 * y1 * y2) * v + 1) * hv
+
+
+/-! ### Edwards projective and extended coordinates normalise to the affine law -/
+
+theorem edDen_ne_zero_iff (d : K) (P Q : K × K) :
+    edDen d P Q ≠ 0 ↔ (1 + d * P.1 * Q.1 * P.2 * Q.2 ≠ 0 ∧ 1 - d * P.1 * Q.1 * P.2 * Q.2 ≠ 0) := by
+  have : edDen d P Q = (1 + d * P.1 * Q.1 * P.2 * Q.2) * (1 - d * P.1 * Q.1 * P.2 * Q.2) := by
+    simp only [edDen]; ring
+  rw [this, mul_ne_zero_iff]
+
+/-- embedding of an affine result into projective coordinates (z = 1) -/
+def embP (P : K × K) : K × K × K := (P.1, P.2, 1)
+/-- embedding of an affine result into extended coordinates (z = 1, t = x y) -/
+def embE (P : K × K) : K × K × K × K := (P.1, P.2, 1, P.1 * P.2)
+
+/-- `EdwardsProjective.operation` followed by `normalize` is `EdwardsAffine.operation` on the
+    normalised inputs, for every projective representation (scale factors l, m ≠ 0) — including
+    the cases where both raise ZeroDivisionError -/
+theorem epAdd_affine (a d x1 y1 x2 y2 l m : K) (hl : l ≠ 0) (hm : m ≠ 0) :
+    epNorm? (Fld.ofField K) (epAdd (Fld.ofField K) a d (x1 * l, y1 * l, l) (x2 * m, y2 * m, m)) =
+      (eaAdd? (Fld.ofField K) a d (x1, y1) (x2, y2)).map embP := by
+  have hZ : (l * m * (l * m) - d * (x1 * l * (x2 * m)) * (y1 * l * (y2 * m))) *
+      (l * m * (l * m) + d * (x1 * l * (x2 * m)) * (y1 * l * (y2 * m))) =
+      (l * m) ^ 4 * edDen d (x1, y1) (x2, y2) := by simp only [edDen]; ring
+  have hlm : (l * m) ^ 4 ≠ 0 := pow_ne_zero _ (mul_ne_zero hl hm)
+  by_cases h : edDen d (x1, y1) (x2, y2) = 0
+  · rw [eaAdd_none a d _ _ h]
+    simp only [epAdd, epNorm?, ofField_add, ofField_sub, ofField_mul, ofField_ofNat, ofField_beq,
+      Nat.cast_zero, hZ, h, mul_zero, decide_true, if_true, Option.map_none]
+  · rw [eaAdd_textbook a d _ _ h]
+    have hZ' := hZ ▸ mul_ne_zero hlm h
+    obtain ⟨hp, hn⟩ := (edDen_ne_zero_iff d _ _).1 h
+    simp only [epAdd, epNorm?, edAddSpec, embP, ofField_add, ofField_sub, ofField_mul, ofField_inv,
+      ofField_ofNat, ofField_beq, Nat.cast_zero, Nat.cast_one, decide_eq_true_eq, hZ', if_false,
+      Option.map_some, Option.some.injEq, Prod.mk.injEq, and_true]
+    constructor
+    · rw [← div_eq_mul_inv, div_eq_div_iff hZ' hp]; ring
+    · rw [← div_eq_mul_inv, div_eq_div_iff hZ' hn]; ring
+
+theorem epNeg_affine (x y l : K) :
+    epNeg (Fld.ofField K) (x * l, y * l, l) = ((eaNeg (Fld.ofField K) (x, y)).1 * l,
+      (eaNeg (Fld.ofField K) (x, y)).2 * l, l) := by
+  simp [epNeg, eaNeg]
+
+/-- `EdwardsProjective.equality` decides equality of the represented affine points -/
+theorem epEq_affine (x1 y1 x2 y2 l m : K) (hl : l ≠ 0) (hm : m ≠ 0) :
+    epEq (Fld.ofField K) (x1 * l, y1 * l, l) (x2 * m, y2 * m, m) =
+      eaEq (Fld.ofField K) (x1, y1) (x2, y2) := by
+  simp only [epEq, eaEq, ofField_mul, ofField_beq]
+  have e1 : x1 * l * m = x2 * m * l ↔ x1 = x2 := by
+    constructor
+    · intro e
+      have : (x1 - x2) * (l * m) = 0 := by linear_combination e
+      rcases mul_eq_zero.1 this with h | h
+      · exact sub_eq_zero.1 h
+      · exact absurd h (mul_ne_zero hl hm)
+    · intro e; rw [e]; ring
+  have e2 : y1 * l * m = y2 * m * l ↔ y1 = y2 := by
+    constructor
+    · intro e
+      have : (y1 - y2) * (l * m) = 0 := by linear_combination e
+      rcases mul_eq_zero.1 this with h | h
+      · exact sub_eq_zero.1 h
+      · exact absurd h (mul_ne_zero hl hm)
+    · intro e; rw [e]; ring
+  simp only [e1, e2]
+
+/-- extended coordinates, a = -1 branch (Hisil et al. 4.2): normalises to the affine law with a = -1 -/
+theorem eeAddM1_affine (d x1 y1 x2 y2 l m : K) (hl : l ≠ 0) (hm : m ≠ 0) (h2 : (2 : K) ≠ 0) :
+    eeNorm? (Fld.ofField K) (eeAddM1 (Fld.ofField K) d (x1 * l, y1 * l, l, x1 * y1 * l)
+        (x2 * m, y2 * m, m, x2 * y2 * m)) =
+      (eaAdd? (Fld.ofField K) (-1) d (x1, y1) (x2, y2)).map embE := by
+  have hZ : (2 * l * m - 2 * d * (x1 * y1 * l) * (x2 * y2 * m)) *
+      (2 * l * m + 2 * d * (x1 * y1 * l) * (x2 * y2 * m)) =
+      4 * (l * m) ^ 2 * edDen d (x1, y1) (x2, y2) := by simp only [edDen]; ring
+  have hlm : 4 * (l * m) ^ 2 ≠ 0 :=
+    mul_ne_zero (by intro e; apply h2; have : (2:K) * 2 = 0 := by linear_combination e
+                    exact (mul_self_eq_zero.1 this)) (pow_ne_zero _ (mul_ne_zero hl hm))
+  by_cases h : edDen d (x1, y1) (x2, y2) = 0
+  · rw [eaAdd_none _ d _ _ h]
+    simp only [eeAddM1, eeNorm?, ofField_add, ofField_sub, ofField_mul, ofField_ofNat, ofField_beq,
+      Nat.cast_zero, Nat.cast_ofNat, hZ, h, mul_zero, decide_true, if_true, Option.map_none]
+  · rw [eaAdd_textbook _ d _ _ h]
+    have hZ' := hZ ▸ mul_ne_zero hlm h
+    obtain ⟨hp, hn⟩ := (edDen_ne_zero_iff d _ _).1 h
+    simp only [eeAddM1, eeNorm?, edAddSpec, embE, ofField_add, ofField_sub, ofField_mul,
+      ofField_inv, ofField_ofNat, ofField_beq, Nat.cast_zero, Nat.cast_one, Nat.cast_ofNat,
+      decide_eq_true_eq, hZ', if_false, Option.map_some, Option.some.injEq, Prod.mk.injEq, true_and]
+    have ex : (y1 * l + x1 * l) * (y2 * m + x2 * m) - (y1 * l - x1 * l) * (y2 * m - x2 * m) =
+        2 * (l * m) * (x1 * y2 + x2 * y1) := by ring
+    have hx : ((y1 * l + x1 * l) * (y2 * m + x2 * m) - (y1 * l - x1 * l) * (y2 * m - x2 * m)) *
+          (2 * l * m - 2 * d * (x1 * y1 * l) * (x2 * y2 * m)) *
+        ((2 * l * m - 2 * d * (x1 * y1 * l) * (x2 * y2 * m)) *
+          (2 * l * m + 2 * d * (x1 * y1 * l) * (x2 * y2 * m)))⁻¹ =
+        (x1 * y2 + x2 * y1) / (1 + d * x1 * x2 * y1 * y2) := by
+      rw [← div_eq_mul_inv, div_eq_div_iff hZ' hp]; ring
+    have hy : (2 * l * m + 2 * d * (x1 * y1 * l) * (x2 * y2 * m)) *
+          ((y1 * l + x1 * l) * (y2 * m + x2 * m) + (y1 * l - x1 * l) * (y2 * m - x2 * m)) *
+        ((2 * l * m - 2 * d * (x1 * y1 * l) * (x2 * y2 * m)) *
+          (2 * l * m + 2 * d * (x1 * y1 * l) * (x2 * y2 * m)))⁻¹ =
+        (y1 * y2 - -1 * x1 * x2) / (1 - d * x1 * x2 * y1 * y2) := by
+      rw [← div_eq_mul_inv, div_eq_div_iff hZ' hn]; ring
+    refine ⟨hx, hy, ?_⟩
+    rw [hx, hy]
+
+/-- extended coordinates, general-a branch (unified addition, Hisil et al. 3.1) -/
+theorem eeAddGen_affine (a d x1 y1 x2 y2 l m : K) (hl : l ≠ 0) (hm : m ≠ 0) :
+    eeNorm? (Fld.ofField K) (eeAddGen (Fld.ofField K) a d (x1 * l, y1 * l, l, x1 * y1 * l)
+        (x2 * m, y2 * m, m, x2 * y2 * m)) =
+      (eaAdd? (Fld.ofField K) a d (x1, y1) (x2, y2)).map embE := by
+  have hZ : (l * m - d * (x1 * y1 * l) * (x2 * y2 * m)) *
+      (l * m + d * (x1 * y1 * l) * (x2 * y2 * m)) =
+      (l * m) ^ 2 * edDen d (x1, y1) (x2, y2) := by simp only [edDen]; ring
+  have hlm : (l * m) ^ 2 ≠ 0 := pow_ne_zero _ (mul_ne_zero hl hm)
+  by_cases h : edDen d (x1, y1) (x2, y2) = 0
+  · rw [eaAdd_none _ d _ _ h]
+    simp only [eeAddGen, eeNorm?, ofField_add, ofField_sub, ofField_mul, ofField_ofNat, ofField_beq,
+      Nat.cast_zero, hZ, h, mul_zero, decide_true, if_true, Option.map_none]
+  · rw [eaAdd_textbook _ d _ _ h]
+    have hZ' := hZ ▸ mul_ne_zero hlm h
+    obtain ⟨hp, hn⟩ := (edDen_ne_zero_iff d _ _).1 h
+    simp only [eeAddGen, eeNorm?, edAddSpec, embE, ofField_add, ofField_sub, ofField_mul,
+      ofField_inv, ofField_ofNat, ofField_beq, Nat.cast_zero, Nat.cast_one,
+      decide_eq_true_eq, hZ', if_false, Option.map_some, Option.some.injEq, Prod.mk.injEq, true_and]
+    have hx : ((x1 * l + y1 * l) * (x2 * m + y2 * m) - x1 * l * (x2 * m) - y1 * l * (y2 * m)) *
+          (l * m - d * (x1 * y1 * l) * (x2 * y2 * m)) *
+        ((l * m - d * (x1 * y1 * l) * (x2 * y2 * m)) *
+          (l * m + d * (x1 * y1 * l) * (x2 * y2 * m)))⁻¹ =
+        (x1 * y2 + x2 * y1) / (1 + d * x1 * x2 * y1 * y2) := by
+      rw [← div_eq_mul_inv, div_eq_div_iff hZ' hp]; ring
+    have hy : (l * m + d * (x1 * y1 * l) * (x2 * y2 * m)) *
+          (y1 * l * (y2 * m) - a * (x1 * l * (x2 * m))) *
+        ((l * m - d * (x1 * y1 * l) * (x2 * y2 * m)) *
+          (l * m + d * (x1 * y1 * l) * (x2 * y2 * m)))⁻¹ =
+        (y1 * y2 - a * x1 * x2) / (1 - d * x1 * x2 * y1 * y2) := by
+      rw [← div_eq_mul_inv, div_eq_div_iff hZ' hn]; ring
+    refine ⟨hx, hy, ?_⟩
+    rw [hx, hy]
+
+/-- `EdwardsExtended.operation` (both branches) normalises to `EdwardsAffine.operation` -/
+theorem eeAdd_affine (a d x1 y1 x2 y2 l m : K) (hl : l ≠ 0) (hm : m ≠ 0) (h2 : (2 : K) ≠ 0) :
+    eeNorm? (Fld.ofField K) (eeAdd (Fld.ofField K) a d (x1 * l, y1 * l, l, x1 * y1 * l)
+        (x2 * m, y2 * m, m, x2 * y2 * m)) =
+      (eaAdd? (Fld.ofField K) a d (x1, y1) (x2, y2)).map embE := by
+  unfold eeAdd
+  by_cases ha : a = -1
+  · subst ha
+    simp only [ofField_beq, ofField_neg, ofField_ofNat, Nat.cast_one, decide_true, if_true]
+    exact eeAddM1_affine d x1 y1 x2 y2 l m hl hm h2
+  · simp only [ofField_beq, ofField_neg, ofField_ofNat, Nat.cast_one, ha, decide_false,
+      Bool.false_eq_true, if_false]
+    exact eeAddGen_affine a d x1 y1 x2 y2 l m hl hm
+
+/-- the dedicated doubling (a = -1) is the addition formula applied to (P, P) -/
+theorem eeDblM1_eq_add (d : K) (P : K × K × K × K) :
+    eeDblM1 (Fld.ofField K) d P = eeAddM1 (Fld.ofField K) d P P := by
+  obtain ⟨x, y, z, t⟩ := P
+  simp only [eeDblM1, eeAddM1, ofField_add, ofField_sub, ofField_mul, ofField_ofNat]
+  refine Prod.ext ?_ (Prod.ext ?_ (Prod.ext ?_ ?_)) <;> dsimp only <;> ring
+
+theorem eeDbl_eq_add (a d : K) (P : K × K × K × K) :
+    eeDbl (Fld.ofField K) a d P = eeAdd (Fld.ofField K) a d P P := by
+  unfold eeDbl eeAdd
+  split
+  · exact eeDblM1_eq_add d P
+  · rfl
+
+/-- the extended coordinate stays consistent: T3 * Z3 = X3 * Y3 (both branches) -/
+theorem eeAdd_t_consistent (a d : K) (P Q : K × K × K × K) :
+    let R := eeAdd (Fld.ofField K) a d P Q
+    R.2.2.2 * R.2.2.1 = R.1 * R.2.1 := by
+  obtain ⟨x1, y1, z1, t1⟩ := P; obtain ⟨x2, y2, z2, t2⟩ := Q
+  simp only [eeAdd]
+  split <;> simp only [eeAddM1, eeAddGen, ofField_mul] <;> ring
+
+
+/-! ## Short Weierstrass curves -/
+
+/-- projective/jacobian image of an affine result: identity ↦ (0, 1, 0), (x, y) ↦ (x, y, 1) -/
+def embW : WAff K → K × K × K
+  | none => (0, 1, 0)
+  | some (x, y) => (x, y, 1)
+
+/-- curve equation y² = x³ + a x + b -/
+def WOn (a b : K) (P : K × K) : Prop := P.2 ^ 2 = P.1 ^ 3 + a * P.1 + b
+
+/-- affine chord addition, the generic case x1 ≠ x2, in closed form -/
+theorem waAdd_chord (a x1 y1 x2 y2 : K) (hx : x1 ≠ x2) :
+    waAdd (Fld.ofField K) a (some (x1, y1)) (some (x2, y2)) =
+      some (((y1 - y2) / (x1 - x2)) ^ 2 - x1 - x2,
+            (y1 - y2) / (x1 - x2) * (x1 - (((y1 - y2) / (x1 - x2)) ^ 2 - x1 - x2)) - y1) := by
+  simp only [waAdd, ofField_beq, ofField_sub, ofField_mul, ofField_inv, hx, decide_false,
+    Bool.false_and, Bool.false_eq_true, if_false, div_eq_mul_inv, pow_two]
+
+theorem waAdd_opposite (a x y1 y2 : K) (hy : y1 ≠ y2) :
+    waAdd (Fld.ofField K) a (some (x, y1)) (some (x, y2)) = none := by
+  simp [waAdd, hy]
+
+theorem waAdd_same (a x y : K) :
+    waAdd (Fld.ofField K) a (some (x, y)) (some (x, y)) = waDbl (Fld.ofField K) a (some (x, y)) := by
+  simp [waAdd]
+
+theorem waDbl_tangent (a x y : K) (hy : y ≠ 0) :
+    waDbl (Fld.ofField K) a (some (x, y)) =
+      some (((3 * x ^ 2 + a) / (2 * y)) ^ 2 - 2 * x,
+            (3 * x ^ 2 + a) / (2 * y) * (x - (((3 * x ^ 2 + a) / (2 * y)) ^ 2 - 2 * x)) - y) := by
+  simp only [waDbl, ofField_beq, ofField_add, ofField_sub, ofField_mul, ofField_inv, ofField_ofNat,
+    Nat.cast_zero, Nat.cast_ofNat, hy, decide_false, Bool.false_eq_true, if_false, div_eq_mul_inv,
+    pow_two]
+
+theorem waDbl_two_torsion (a x : K) : waDbl (Fld.ofField K) a (some (x, 0)) = none := by
+  simp [waDbl]
+
+/-! ### Jacobian coordinates (x λ², y λ³, λ) -/
+
+/-- `WeierstrassJacobian.operation` (add-2007-bl), generic case: normalises to the affine chord law -/
+theorem wjAdd_affine (a x1 y1 x2 y2 l m : K) (hl : l ≠ 0) (hm : m ≠ 0) (h2 : (2 : K) ≠ 0)
+    (hx : x1 ≠ x2) :
+    wjNorm (Fld.ofField K) (wjAdd (Fld.ofField K) (x1 * l ^ 2, y1 * l ^ 3, l) (x2 * m ^ 2, y2 * m ^ 3, m)) =
+      embW (waAdd (Fld.ofField K) a (some (x1, y1)) (some (x2, y2))) := by
+  rw [waAdd_chord a x1 y1 x2 y2 hx]
+  have hh : x2 * m ^ 2 * (l * l) - x1 * l ^ 2 * (m * m) ≠ 0 := by
+    have : x2 * m ^ 2 * (l * l) - x1 * l ^ 2 * (m * m) = (x2 - x1) * (l * m) ^ 2 := by ring
+    rw [this]
+    exact mul_ne_zero (sub_ne_zero.2 (Ne.symm hx)) (pow_ne_zero _ (mul_ne_zero hl hm))
+  have hz : ((l + m) * (l + m) - l * l - m * m) * (x2 * m ^ 2 * (l * l) - x1 * l ^ 2 * (m * m)) ≠ 0 := by
+    have : (l + m) * (l + m) - l * l - m * m = 2 * (l * m) := by ring
+    rw [this]
+    exact mul_ne_zero (mul_ne_zero h2 (mul_ne_zero hl hm)) hh
+  have hd : x1 - x2 ≠ 0 := sub_ne_zero.2 hx
+  simp only [wjAdd, wjNorm, embW, ofField_add, ofField_sub, ofField_mul, ofField_inv, ofField_ofNat,
+    ofField_beq, Nat.cast_zero, Nat.cast_one, Nat.cast_ofNat, hl, hm, hh, hz, decide_false,
+    Bool.false_and, Bool.false_eq_true, if_false, Prod.mk.injEq, and_true]
+  generalize hZ : ((l + m) * (l + m) - l * l - m * m) * (x2 * m ^ 2 * (l * l) - x1 * l ^ 2 * (m * m)) = Z at hz ⊢
+  generalize hD : x1 - x2 = D at hd ⊢
+  constructor
+  · field_simp
+    subst hZ hD
+    ring
+  · field_simp
+    subst hZ hD
+    ring
+
+
+/-- same affine point: the Jacobian addition takes its doubling branch -/
+theorem wjAdd_same (x y l m : K) (hl : l ≠ 0) (hm : m ≠ 0) :
+    wjAdd (Fld.ofField K) (x * l ^ 2, y * l ^ 3, l) (x * m ^ 2, y * m ^ 3, m) =
+      wjDbl (Fld.ofField K) (x * l ^ 2, y * l ^ 3, l) := by
+  have h1 : x * m ^ 2 * (l * l) - x * l ^ 2 * (m * m) = 0 := by ring
+  have h2 : (2 : K) * (y * m ^ 3 * l * (l * l) - y * l ^ 3 * m * (m * m)) = 0 := by ring
+  simp only [wjAdd, ofField_sub, ofField_mul, ofField_ofNat, ofField_beq, Nat.cast_zero,
+    Nat.cast_ofNat, hl, hm, h1, h2, decide_false, decide_true, Bool.and_self, Bool.false_eq_true,
+    if_false, if_true]
+
+/-- opposite points (same x, different y): the Jacobian sum normalises to the identity -/
+theorem wjAdd_opposite (x y1 y2 l m : K) (hl : l ≠ 0) (hm : m ≠ 0) (h2 : (2 : K) ≠ 0)
+    (hy : y1 ≠ y2) :
+    wjNorm (Fld.ofField K) (wjAdd (Fld.ofField K) (x * l ^ 2, y1 * l ^ 3, l) (x * m ^ 2, y2 * m ^ 3, m)) =
+      embW (none : WAff K) := by
+  have h1 : x * m ^ 2 * (l * l) - x * l ^ 2 * (m * m) = 0 := by ring
+  have hr : (2 : K) * (y2 * m ^ 3 * l * (l * l) - y1 * l ^ 3 * m * (m * m)) ≠ 0 := by
+    have : (2 : K) * (y2 * m ^ 3 * l * (l * l) - y1 * l ^ 3 * m * (m * m)) =
+        2 * ((y2 - y1) * (l * m) ^ 3) := by ring
+    rw [this]
+    exact mul_ne_zero h2 (mul_ne_zero (sub_ne_zero.2 (Ne.symm hy)) (pow_ne_zero _ (mul_ne_zero hl hm)))
+  simp only [wjAdd, wjNorm, embW, ofField_add, ofField_sub, ofField_mul, ofField_ofNat, ofField_beq,
+    Nat.cast_zero, Nat.cast_one, Nat.cast_ofNat, hl, hm, h1, hr, decide_false, decide_true,
+    Bool.and_false, Bool.false_eq_true, if_false, mul_zero, if_true]
+
+/-- `WeierstrassJacobian.operation2` (dbl-2009-l, a = 0): normalises to the affine tangent law -/
+theorem wjDbl_affine (x y l : K) (hl : l ≠ 0) (h2 : (2 : K) ≠ 0) (hy : y ≠ 0) :
+    wjNorm (Fld.ofField K) (wjDbl (Fld.ofField K) (x * l ^ 2, y * l ^ 3, l)) =
+      embW (waDbl (Fld.ofField K) 0 (some (x, y))) := by
+  rw [waDbl_tangent 0 x y hy]
+  have hz : (2 : K) * (y * l ^ 3) * l ≠ 0 :=
+    mul_ne_zero (mul_ne_zero h2 (mul_ne_zero hy (pow_ne_zero _ hl))) hl
+  have hd : (2 : K) * y ≠ 0 := mul_ne_zero h2 hy
+  simp only [wjDbl, wjNorm, embW, ofField_add, ofField_sub, ofField_mul, ofField_inv, ofField_ofNat,
+    ofField_beq, Nat.cast_zero, Nat.cast_one, Nat.cast_ofNat, hz, decide_false,
+    Bool.false_eq_true, if_false, Prod.mk.injEq, and_true, add_zero]
+  generalize hZ : (2 : K) * (y * l ^ 3) * l = Z at hz ⊢
+  generalize hD : (2 : K) * y = D at hd ⊢
+  constructor
+  · field_simp
+    subst hZ hD
+    ring
+  · field_simp
+    subst hZ hD
+    ring
+
+/-- doubling a point with y = 0 gives the identity in Jacobian coordinates as in affine ones -/
+theorem wjDbl_two_torsion (x l : K) :
+    wjNorm (Fld.ofField K) (wjDbl (Fld.ofField K) (x * l ^ 2, 0 * l ^ 3, l)) =
+      embW (waDbl (Fld.ofField K) 0 (some (x, 0))) := by
+  rw [waDbl_two_torsion]
+  simp [wjDbl, wjNorm, embW]
+
+/-- `WeierstrassJacobian.equality` decides equality of the represented affine points -/
+theorem wjEq_affine (x1 y1 x2 y2 l m : K) (hl : l ≠ 0) (hm : m ≠ 0) :
+    wjEq (Fld.ofField K) (x1 * l ^ 2, y1 * l ^ 3, l) (x2 * m ^ 2, y2 * m ^ 3, m) =
+      waEq (Fld.ofField K) (some (x1, y1)) (some (x2, y2)) := by
+  simp only [wjEq, waEq, ofField_mul, ofField_ofNat, ofField_beq, Nat.cast_zero, hl, hm,
+    decide_false, Bool.and_false, Bool.false_eq_true, if_false]
+  have e1 : x1 * l ^ 2 * (m * m) = x2 * m ^ 2 * (l * l) ↔ x1 = x2 := by
+    constructor
+    · intro e
+      have : (x1 - x2) * (l * m) ^ 2 = 0 := by linear_combination e
+      rcases mul_eq_zero.1 this with h | h
+      · exact sub_eq_zero.1 h
+      · exact absurd h (pow_ne_zero _ (mul_ne_zero hl hm))
+    · intro e; rw [e]; ring
+  have e2 : y1 * l ^ 3 * m * (m * m) = y2 * m ^ 3 * l * (l * l) ↔ y1 = y2 := by
+    constructor
+    · intro e
+      have : (y1 - y2) * (l * m) ^ 3 = 0 := by linear_combination e
+      rcases mul_eq_zero.1 this with h | h
+      · exact sub_eq_zero.1 h
+      · exact absurd h (pow_ne_zero _ (mul_ne_zero hl hm))
+    · intro e; rw [e]; ring
+  simp only [e1, e2]
+
+/-! ### projective coordinates (x λ, y λ, λ): Renes–Costello–Batina complete formulas, a = 0 -/
+
+/-- `WeierstrassProjective.operation` (RCB Alg. 7): for two points ON THE CURVE y² = x³ + b with
+    different x the result, when its z is non-zero, normalises to the affine chord law -/
+theorem wpAdd_affine (b x1 y1 x2 y2 l m : K) (hx : x1 ≠ x2)
+    (h1 : WOn 0 b (x1, y1)) (h2 : WOn 0 b (x2, y2))
+    (hz : (wpAdd (Fld.ofField K) b (x1 * l, y1 * l, l) (x2 * m, y2 * m, m)).2.2 ≠ 0) :
+    wpNorm (Fld.ofField K) (wpAdd (Fld.ofField K) b (x1 * l, y1 * l, l) (x2 * m, y2 * m, m)) =
+      embW (waAdd (Fld.ofField K) 0 (some (x1, y1)) (some (x2, y2))) := by
+  rw [waAdd_chord 0 x1 y1 x2 y2 hx]
+  simp only [WOn, zero_mul, add_zero] at h1 h2
+  have hd : x1 - x2 ≠ 0 := sub_ne_zero.2 hx
+  simp only [wpAdd, ofField_add, ofField_sub, ofField_mul, ofField_ofNat, Nat.cast_ofNat] at hz
+  simp only [wpAdd, wpNorm, embW, ofField_add, ofField_sub, ofField_mul, ofField_inv, ofField_ofNat,
+    ofField_beq, Nat.cast_zero, Nat.cast_one, Nat.cast_ofNat, hz, decide_false,
+    Bool.false_eq_true, if_false, Prod.mk.injEq, and_true]
+  set Z := ((y1 * l + l) * (y2 * m + m) - y1 * l * (y2 * m) - l * m) *
+      (y1 * l * (y2 * m) + l * m * (3 * b)) +
+    x1 * l * (x2 * m) * 3 * ((x1 * l + y1 * l) * (x2 * m + y2 * m) - x1 * l * (x2 * m) - y1 * l * (y2 * m)) with hZ
+  have kx : (((x1 * l + y1 * l) * (x2 * m + y2 * m) - x1 * l * (x2 * m) - y1 * l * (y2 * m)) *
+        (y1 * l * (y2 * m) - l * m * (3 * b)) -
+      ((y1 * l + l) * (y2 * m + m) - y1 * l * (y2 * m) - l * m) *
+        (3 * b * ((x1 * l + l) * (x2 * m + m) - x1 * l * (x2 * m) - l * m))) * (x1 - x2) ^ 2 =
+      Z * ((y1 - y2) ^ 2 - (x1 + x2) * (x1 - x2) ^ 2) := by
+    rw [hZ]
+    linear_combination
+      (-3*b*l^2*m^2*y1 + 2*b*l^2*m^2*y2 - 3*l^2*m^2*x1^2*x2*y2 - 3*l^2*m^2*x1*x2^2*y1 + 3*l^2*m^2*x1*x2^2*y2 + 2*l^2*m^2*x2^3*y2 - l^2*m^2*y1^2*y2 + l^2*m^2*y1*y2^2 + l^2*m^2*y2^3) * h1
+      + (3*b*l^2*m^2*y1 - 2*b*l^2*m^2*y2 + 3*l^2*m^2*x1^3*y1 + l^2*m^2*x1^3*y2 + 3*l^2*m^2*x1^2*x2*y1 - 3*l^2*m^2*x1^2*x2*y2 - 3*l^2*m^2*x1*x2^2*y1 - l^2*m^2*y1*y2^2) * h2
+  have ky : (x1 * l * (x2 * m) * 3 * (3 * b * ((x1 * l + l) * (x2 * m + m) - x1 * l * (x2 * m) - l * m)) +
+        (y1 * l * (y2 * m) - l * m * (3 * b)) * (y1 * l * (y2 * m) + l * m * (3 * b))) * (x1 - x2) ^ 3 =
+      Z * ((y1 - y2) * (x1 * (x1 - x2) ^ 2 - ((y1 - y2) ^ 2 - (x1 + x2) * (x1 - x2) ^ 2)) - y1 * (x1 - x2) ^ 3) := by
+    rw [hZ]
+    linear_combination
+      (3*b^2*l^2*m^2 + 12*b*l^2*m^2*x1*x2^2 - 6*b*l^2*m^2*x2^3 + 3*b*l^2*m^2*y1^2 - 5*b*l^2*m^2*y1*y2 - 2*b*l^2*m^2*y2^2 + 9*l^2*m^2*x1^2*x2^4 + 3*l^2*m^2*x1^2*x2*y1*y2 - 15*l^2*m^2*x1^2*x2*y2^2 - 6*l^2*m^2*x1*x2^5 + 3*l^2*m^2*x1*x2^2*y1^2 - 6*l^2*m^2*x1*x2^2*y1*y2 + 15*l^2*m^2*x1*x2^2*y2^2 - 2*l^2*m^2*x2^3*y1*y2 - 2*l^2*m^2*x2^3*y2^2 + l^2*m^2*y1^3*y2 - 2*l^2*m^2*y1^2*y2^2 + 2*l^2*m^2*y2^4) * h1
+      + (-3*b^2*l^2*m^2 + 6*b*l^2*m^2*x1^3 - 27*b*l^2*m^2*x1^2*x2 + 15*b*l^2*m^2*x1*x2^2 + 5*b*l^2*m^2*y1*y2 - b*l^2*m^2*y2^2 - 9*l^2*m^2*x1^5*x2 + 6*l^2*m^2*x1^4*x2^2 + 2*l^2*m^2*x1^3*y1*y2 + 2*l^2*m^2*x1^3*y2^2 + 6*l^2*m^2*x1^2*x2*y1*y2 - 3*l^2*m^2*x1^2*x2*y2^2 - 3*l^2*m^2*x1*x2^2*y1*y2 - l^2*m^2*y1*y2^3) * h2
+  clear_value Z
+  generalize hD : x1 - x2 = D at hd kx ky ⊢
+  constructor
+  · field_simp
+    linear_combination kx
+  · field_simp
+    linear_combination ky
+
+/-- `WeierstrassProjective.operation2` (RCB Alg. 9): for a point ON THE CURVE with y ≠ 0 the result
+    normalises to the affine tangent law -/
+theorem wpDbl_affine (b x y l : K) (hl : l ≠ 0) (h2 : (2 : K) ≠ 0) (hy : y ≠ 0)
+    (h1 : WOn 0 b (x, y)) :
+    wpNorm (Fld.ofField K) (wpDbl (Fld.ofField K) b (x * l, y * l, l)) =
+      embW (waDbl (Fld.ofField K) 0 (some (x, y))) := by
+  rw [waDbl_tangent 0 x y hy]
+  simp only [WOn, zero_mul, add_zero] at h1
+  have h8 : (8 : K) ≠ 0 := by
+    have : (8 : K) = 2 ^ 3 := by norm_num
+    rw [this]; exact pow_ne_zero _ h2
+  have hz : (8 : K) * (y * l * (y * l)) * (y * l * l) ≠ 0 :=
+    mul_ne_zero (mul_ne_zero h8 (mul_ne_zero (mul_ne_zero hy hl) (mul_ne_zero hy hl)))
+      (mul_ne_zero (mul_ne_zero hy hl) hl)
+  have hd : (2 : K) * y ≠ 0 := mul_ne_zero h2 hy
+  simp only [wpDbl, wpNorm, embW, ofField_add, ofField_sub, ofField_mul, ofField_inv, ofField_ofNat,
+    ofField_beq, Nat.cast_zero, Nat.cast_one, Nat.cast_ofNat, hz, decide_false,
+    Bool.false_eq_true, if_false, Prod.mk.injEq, and_true, add_zero]
+  have kx : (2 * (y * l * (y * l) - 3 * (3 * b * (l * l))) * (x * l) * (y * l)) * (2 * y) ^ 2 =
+      (8 * (y * l * (y * l)) * (y * l * l)) * ((3 * x ^ 2) ^ 2 - 2 * x * (2 * y) ^ 2) := by
+    linear_combination (72*l^4*x*y^3) * h1
+  have ky : ((y * l * (y * l) - 3 * (3 * b * (l * l))) * (y * l * (y * l) + 3 * b * (l * l)) +
+        3 * b * (l * l) * (8 * (y * l * (y * l)))) * (2 * y) ^ 3 =
+      (8 * (y * l * (y * l)) * (y * l * l)) *
+        ((3 * x ^ 2) * (x * (2 * y) ^ 2 - ((3 * x ^ 2) ^ 2 - 2 * x * (2 * y) ^ 2)) - y * (2 * y) ^ 3) := by
+    linear_combination (216*b*l^4*y^3 - 216*l^4*x^3*y^3 + 72*l^4*y^5) * h1
+  generalize hZ : (8 : K) * (y * l * (y * l)) * (y * l * l) = Z at hz kx ky ⊢
+  generalize hD : (2 : K) * y = D at hd kx ky ⊢
+  constructor
+  · field_simp
+    linear_combination kx
+  · field_simp
+    linear_combination ky
+
+/-- doubling a point with y = 0 gives z = 0, i.e. the identity after normalisation -/
+theorem wpDbl_two_torsion (b x l : K) :
+    wpNorm (Fld.ofField K) (wpDbl (Fld.ofField K) b (x * l, 0 * l, l)) = embW (none : WAff K) := by
+  simp [wpDbl, wpNorm, embW]
+
+/-- `WeierstrassProjective.equality` decides equality of the represented affine points -/
+theorem wpEq_affine (x1 y1 x2 y2 l m : K) (hl : l ≠ 0) (hm : m ≠ 0) :
+    wpEq (Fld.ofField K) (x1 * l, y1 * l, l) (x2 * m, y2 * m, m) =
+      waEq (Fld.ofField K) (some (x1, y1)) (some (x2, y2)) := by
+  simp only [wpEq, waEq, ofField_ofNat, ofField_beq, Nat.cast_zero, hl, hm,
+    decide_false, Bool.and_false, Bool.false_eq_true, if_false]
+  exact epEq_affine x1 y1 x2 y2 l m hl hm
+
+/-! ### secure variants of secgroups.py evaluated on field elements -/
+
+theorem ifElse_one (a b : K) : ifElse (Fld.ofField K) 1 a b = a := by simp [ifElse]
+theorem ifElse_zero (a b : K) : ifElse (Fld.ofField K) 0 a b = b := by simp [ifElse]
+
+/-- the oblivious normalisation of secgroups (`zis0 = [z == 0]`, `1/(z + zis0)`) equals the plain
+    `WeierstrassProjective.normalize` -/
+theorem secWpNorm_eq (P : K × K × K) : secWpNorm (Fld.ofField K) P = wpNorm (Fld.ofField K) P := by
+  obtain ⟨x, y, z⟩ := P
+  by_cases hz : z = 0
+  · subst hz; simp [secWpNorm, wpNorm, ifElse]
+  · simp [secWpNorm, wpNorm, ifElse, hz, mul_comm]
 
 end MpycV.Groups
